@@ -225,10 +225,11 @@ package native
 //@ assumed
 //@ pure
 //@ ensures fresh(result)
+//@ spec voterKeyOf(pub seq) seq
 //@ func makeVoterKey
 //@ assumed
 //@ pure
-//@ ensures fresh(result)
+//@ ensures fresh(result) && len(result) == 34 && seq(result) == voterKeyOf(seq(pub))
 //@ func (*NEO).dropCandidateIfZero
 //@ may-panic
 //@ requires n != nil && d != nil && c != nil && cache != nil
@@ -236,6 +237,10 @@ package native
 //@ ensures[untouched] !result ==> unchanged(dao.kv(d, n.ID)) && unchanged(dao.kvVotes(d, n.ID)) && unchanged(dao.kvReg(d, n.ID))
 //@ ensures[kept] result == old(!c.Registered && (&c.Votes).v == 0)
 //@ ensures[nodelete] !result ==> ncalls(DeleteStorageItem) == 0
+// the per-candidate reward cache is keyed by the public key bytes (no storage prefix): the entry of
+// a dropped candidate goes with its storage record - otherwise a node that kept running answers
+// from the stale entry where a restarted one reads the (deleted) record
+//@ ensures[cache] result ==> !has(cache.gasPerVoteCache, sub(voterKeyOf(keys.pkBytes(pub)), 1, 34))
 
 // NEO.increaseBalance (C05): the candidate tally and the voters count move by the amount of the
 // balance change and only once the debit is known to be covered: by the time either is adjusted
